@@ -38,3 +38,10 @@ Proof.
   apply gen_loop_is_loop. lia.
 Qed.
 Print Assumptions generated_retry_is_model.
+
+(** ** A C10 theorem, stated of the function generated from the source *)
+From UJ Require Props.C10.
+Theorem C10_retry_attempts_le_on_source :
+  forall (attempts : Z) (f : nat -> outcome), (Z.of_nat (snd (gen_retry_call attempts f)) <= Z.max attempts 0)%Z.
+Proof. intros. rewrite generated_retry_is_model. apply Props.C10.C10_retry_attempts_le. Qed.
+Print Assumptions C10_retry_attempts_le_on_source.
